@@ -777,9 +777,23 @@ def rft_densities(ck, rft):
         [2.5, 3, 4, 5, 7, 7.5, 10, 20, 23.7, 30, 40, 50, 100, 100.3, 300, 343, 344, 400, 1000, 5000, 10000, 100000, 1000000]
     dfns = [1, 2, 3, 5, 8, 22, 23] if not ck.thorough() else [1, 2, 3, 4, 5, 6, 8, 12, 22, 23, 30]
 
+    def evaluate(sig, what, got, rep):
+        """`got` may be a thunk: constructing or evaluating the statistic must not raise"""
+        if not callable(got):
+            return got
+        try:
+            return got()
+        except Exception as e:  # noqa
+            sg = sig.split("/")
+            ck.fail("/".join(sg[:1] + ["raises"] + sg[1:2]), "%s raised %s: %s" % (what.split(" vs ")[0], type(e).__name__, e), rep)
+            return None
+
     def chk(sig, what, got, want, rep, tol=1e-9, dfd=0., scale=0.):
         """relative 1e-9; differences of log-Gamma values of size ~dfd lose about dfd * 1e-16, which is added for large dfd"""
         ck.count((sig, repr(rep)), bucket="rft:density")
+        got = evaluate(sig, what, got, rep)
+        if got is None:
+            return
         got, want = np.asarray(got, float), np.asarray(want, float)
         extra = 4e-15 * float(dfd)
         if not np.all(np.isfinite(got)):
@@ -805,6 +819,9 @@ def rft_densities(ck, rft):
 
     def chk_tail(sig, what, got, want, rep, dfd=0.):
         ck.count((sig, repr(rep)), bucket="rft:density")
+        got = evaluate(sig, what, got, rep)
+        if got is None:
+            return
         got, want = np.asarray(got, float), np.asarray(want, float)
         bad = ~(np.abs(got - want) <= (1e-9 + 4e-15 * float(dfd)) * np.abs(want) + 1e-300)
         if bad.any():
@@ -815,16 +832,16 @@ def rft_densities(ck, rft):
                     dict(rep, x=float(xthr[i]), got=float(got[i]) if np.isfinite(got[i]) else str(got[i]), expected=float(want[i])))
 
     xthr = xt
-    chk_tail("rho0/gaussian", "Gaussian().density(x, 0) vs norm.sf", rft.Gaussian().density(xt, 0), stats.norm.sf(xt), {})
+    chk_tail("rho0/gaussian", "Gaussian().density(x, 0) vs norm.sf", lambda: rft.Gaussian().density(xt, 0), stats.norm.sf(xt), {})
     for m in dfds:
-        chk_tail("rho0/t", "TStat(dfd=%g).density(x, 0) vs t.sf" % m, rft.TStat(dfd=m).density(xt, 0), stats.t.sf(xt, m), {"dfd": m}, dfd=m)
+        chk_tail("rho0/t", "TStat(dfd=%g).density(x, 0) vs t.sf" % m, lambda: rft.TStat(dfd=m).density(xt, 0), stats.t.sf(xt, m), {"dfd": m}, dfd=m)
     for k in dfns:
         xthr = xt ** 2
-        chk_tail("rho0/chi2", "ChiSquared(dfn=%d).density(x, 0) vs chi2.sf" % k, rft.ChiSquared(dfn=k).density(xthr, 0), stats.chi2.sf(xthr, k), {"dfn": k})
+        chk_tail("rho0/chi2", "ChiSquared(dfn=%d).density(x, 0) vs chi2.sf" % k, lambda: rft.ChiSquared(dfn=k).density(xthr, 0), stats.chi2.sf(xthr, k), {"dfn": k})
         for m in dfds:
             xthr = xt ** 2 / k
             chk_tail("rho0/F/%s" % ("negative-gamma-in-Q" if neg_gamma(k, m, 0) else "other"),
-                     "FStat(dfn=%d, dfd=%g).density(x, 0) vs f.sf" % (k, m), rft.FStat(dfn=k, dfd=m).density(xthr, 0),
+                     "FStat(dfn=%d, dfd=%g).density(x, 0) vs f.sf" % (k, m), lambda: rft.FStat(dfn=k, dfd=m).density(xthr, 0),
                      stats.f.sf(xthr, k, m), {"dfn": k, "dfd": m}, dfd=m)
     # Gaussian: (2 pi)^-(d+1)/2 He_{d-1}(x) exp(-x^2/2); He by the three-term recurrence (independent of hermitenorm)
     def He(n, x):
@@ -835,7 +852,7 @@ def rft_densities(ck, rft):
             a, b = b, x * b - j * a
         return b
     for d in range(1, 8):
-        chk("density/gaussian", "Gaussian().density(x, %d) vs Hermite closed form" % d, rft.Gaussian().density(xs, d),
+        chk("density/gaussian", "Gaussian().density(x, %d) vs Hermite closed form" % d, lambda: rft.Gaussian().density(xs, d),
             (2 * np.pi) ** (-(d + 1) / 2.) * He(d - 1, xs) * np.exp(-xs ** 2 / 2), {"dim": d})
     # t field (Worsley 1994), dims 1..3
     for m in dfds:
@@ -844,7 +861,7 @@ def rft_densities(ck, rft):
         forms = {1: (2 * np.pi) ** -1 * base, 2: (2 * np.pi) ** -1.5 * c2 * xs * base,
                  3: (2 * np.pi) ** -2 * ((m - 1.) / m * xs ** 2 - 1) * base}
         for d, want in forms.items():
-            chk("density/t", "TStat(dfd=%g).density(x, %d) vs Worsley closed form" % (m, d), rft.TStat(dfd=m).density(xs, d), want, {"dfd": m, "dim": d}, dfd=m)
+            chk("density/t", "TStat(dfd=%g).density(x, %d) vs Worsley closed form" % (m, d), lambda: rft.TStat(dfd=m).density(xs, d), want, {"dfd": m, "dim": d}, dfd=m)
     # chi-squared field (Worsley 1994), dims 1..3
     for k in dfns:
         c = 1.0 / (2 ** ((k - 2) / 2.) * np.exp(gammaln(k / 2.)))
@@ -852,7 +869,7 @@ def rft_densities(ck, rft):
                  2: (2 * np.pi) ** -1 * c * xs ** ((k - 2) / 2.) * np.exp(-xs / 2) * (xs - (k - 1)),
                  3: (2 * np.pi) ** -1.5 * c * xs ** ((k - 3) / 2.) * np.exp(-xs / 2) * (xs ** 2 - (2 * k - 1) * xs + (k - 1) * (k - 2))}
         for d, want in forms.items():
-            chk("density/chi2", "ChiSquared(dfn=%d).density(x, %d) vs Worsley closed form" % (k, d), rft.ChiSquared(dfn=k).density(xs, d), want,
+            chk("density/chi2", "ChiSquared(dfn=%d).density(x, %d) vs Worsley closed form" % (k, d), lambda: rft.ChiSquared(dfn=k).density(xs, d), want,
                 {"dfn": k, "dim": d}, scale=ref_cone(np.sqrt(xs), ref_sphere(k), np.inf, [0.0] * d + [1.0])[1])
     # F field (Worsley 1994), dims 1..2
     for k in dfns:
@@ -867,20 +884,23 @@ def rft_densities(ck, rft):
                 # structural feature: Q(j, dfd) takes gammaln((m+2-j+2L)/2) at an argument where Gamma is negative (log|Gamma| loses the sign)
                 neg = neg_gamma(k, m, d)
                 chk("density/F/%s" % ("negative-gamma-in-Q" if neg else "other"), "FStat(dfn=%d, dfd=%g).density(x, %d) vs Worsley closed form" % (k, m, d),
-                    rft.FStat(dfn=k, dfd=m).density(xs, d), want, {"dfn": k, "dfd": m, "dim": d}, dfd=m,
+                    lambda: rft.FStat(dfn=k, dfd=m).density(xs, d), want, {"dfn": k, "dfd": m, "dim": d}, dfd=m,
                     scale=ref_cone(np.sqrt(xs * k), ref_sphere(k), m, [0.0] * d + [1.0])[1])
     # ---- rho_0 for numerator df / sphere dimensions up to the hundreds and non-integer dfd, thresholds at given tail probabilities
     tails = np.array([0.9, 0.5, 0.1, 1e-3, 1e-8])
     for k in ([22, 23, 30, 64, 120] if not ck.thorough() else [16, 22, 23, 30, 40, 64, 100, 120, 200]):
         for m in (7.5, 23.7, 40, 1000, np.inf):
             if np.isfinite(m):
-                thr, o, arg = stats.f.isf(tails, k, m), rft.FStat(dfn=k, dfd=m), (lambda t: np.sqrt(t * k))
+                thr, mk0, arg = stats.f.isf(tails, k, m), (lambda: rft.FStat(dfn=k, dfd=m)), (lambda t: np.sqrt(t * k))
                 want, nm = stats.f.sf(thr, k, m), "FStat(dfn=%d, dfd=%g)" % (k, m)
             else:
-                thr, o, arg = stats.chi2.isf(tails, k), rft.ChiSquared(dfn=k), np.sqrt
+                thr, mk0, arg = stats.chi2.isf(tails, k), (lambda: rft.ChiSquared(dfn=k)), np.sqrt
                 want, nm = stats.chi2.sf(thr, k), "ChiSquared(dfn=%d)" % k
             ck.count(("rho0-large", k, m), bucket="rft:density")
-            got = np.asarray(o.density(thr, 0), float)
+            got = evaluate("rho0-large-dfn/x", nm + ".density(x, 0)", lambda: mk0().density(thr, 0), {"dfn": k, "dfd": m, "x": thr.tolist()})
+            if got is None:
+                continue
+            got = np.asarray(got, float)
             _, scale = ref_cone(arg(thr), ref_sphere(k), m, [1.0])
             cond = scale / np.abs(want)                       # conditioning of the alternating Hermite expansion the code evaluates
             bad = ~(np.abs(got - want) <= 1e-9 * np.abs(want))
@@ -907,15 +927,19 @@ def rft_densities(ck, rft):
         limits.append(("Roy", (lambda k: lambda v: rft.Roy(dfn=3, dfd=v, k=k))(k), (lambda k: lambda: rft.Roy(dfn=3, dfd=np.inf, k=k))(k), xs, range(0, 4)))
         limits.append(("OneSidedF", (lambda k: lambda v: rft.OneSidedF(k + 1, dfd=v))(k), (lambda k: lambda: rft.OneSidedF(k + 1, dfd=np.inf))(k), xs, range(0, 4)))
     grid = [40, 100, 343, 400, 1000, 10000, 100000, 1000000]
-    for name, mk, mklim, xx, dims in limits:
+    for li, (name, mk, mklim, xx, dims) in enumerate(limits):
         lim = mklim()
         for d in dims:
             want = np.asarray(lim.density(xx, d), float)
             prev = None
             for v in grid:
-                ck.count(("conv", name, d, v, repr(mk(v).__dict__.get("dfn")), repr(mk(v).__dict__.get("k"))), bucket="rft:large-dfd")
-                got = np.asarray(mk(v).density(xx, d), float)
-                rep = {"statistic": name, "dfd": v, "dim": d, "x": xx.tolist(), "params": {a: getattr(mk(v), a) for a in ("dfn", "k") if hasattr(mk(v), a)}}
+                ck.count(("conv", name, d, v, li), bucket="rft:large-dfd")
+                rep = {"statistic": name, "dfd": v, "dim": d, "x": xx.tolist()}
+                got = evaluate("density/large-dfd-limit/" + name, "%s with dfd=%g: density of order %d" % (name, v, d), lambda: mk(v).density(xx, d), rep)
+                if got is None:
+                    prev = None
+                    continue
+                got = np.asarray(got, float)
                 if not np.all(np.isfinite(got)):
                     ck.fail("density/non-finite/%s" % name, "%s with dfd=%g: density of order %d is %s" % (name, v, d, got.tolist()), rep)
                     prev = None
